@@ -488,6 +488,9 @@ def r510(ctx):
         raise AnalysisError("R-5.10: no acquire store found in REPEX_state")
 
 
+TIS_REL = "infretis/core/tis.py"
+
+
 def run(ctx):
     ctx.rule("R-5.2", "the restart file written after a step is written after the re-sorting (commit is final)", floor=1)
     ctx.rule("R-5.4", "in-flight jobs are persisted in the ensemble-index unit that the restart reads back (shared with C08 R-8.7)", floor=4)
@@ -508,6 +511,10 @@ def run(ctx):
     ctx.attempt(r58, ctx)
     ctx.rule("R-5.10", "the acquire primitive does not evaluate the P matrix (the idle block may be empty right after the last acquire)", floor=1)
     ctx.attempt(r510, ctx)
+    ctx.rule("R-5.13", "an accepted path has non-zero weight in its own ensemble, so the step can be completed (add_traj asserts it): calc_cv_vector / compute_weight plumbing, options tested with `is not False` (shared with C10 R-10.4)", floor=5)
+    from . import c10 as _c10
+    from .shared import RuleProxy as _RP5b
+    ctx.attempt(_c10.r104, _RP5b(ctx, "R-5.13", " - add_traj hits `assert valid[ens] != 0`, the step cannot complete, the ensemble stays busy and the worker never gets another job"))
     ctx.rule("R-5.12", "a job can be drawn from P: the fast kernel clamps its probability budget between every subtraction and the next use, so P has no negative entries (shared with C02 R-2.12)", floor=1)
     from . import c02 as _c02c
     ctx.attempt(_c02c.r212, ctx, "R-5.12", " - rgen.choice rejects the distribution (probabilities are not non-negative) and no job can be drawn although ensembles are idle")
@@ -521,6 +528,7 @@ def run(ctx):
 
 
 VARIANTS = [
+    B("c05-minus-interface-by-truthiness", TIS_REL, "        if lambda_minus_one is not False:", "        if lambda_minus_one:", "R-5.13", control=True, why="seeded C05_l (lambda_minus_one = 0.0 is a legal interface)"),
     B("c05-budget-clamped-before-subtraction", REPEX, "            total_traj_prob -= ens\n            # force negative values to 0\n            total_traj_prob[np.where(total_traj_prob < 0)] = 0\n", "            # force negative values to 0\n            total_traj_prob[np.where(total_traj_prob < 0)] = 0\n            total_traj_prob -= ens\n", "R-5.12", control=True, why="seeded C05_k"),
     B("c05-resort-keeps-stale-matrix", REPEX, "            ]\n        self._last_prob = None\n        self.prob\n\n    def lock(self, ens):", "            ]\n        self.prob\n\n    def lock(self, ens):", "R-5.11", control=True, why="seeded C05_j"),
     B("c05-lock-refreshes-probabilities", REPEX, "        assert self._locks[ens] == 0\n        self._locks[ens] = 1\n", "        assert self._locks[ens] == 0\n        self._locks[ens] = 1\n        self._last_prob = None\n        self.prob\n", "R-5.10", control=True, why="seeded C05_i"),
